@@ -12,17 +12,12 @@ Definition C21_full_statement : Prop :=
     check_type live t s = Ok tt -> conforms live s v -> arity_ok t v = true ->
     not_rejected (coerce live W false t v).
 
-(* false on the pinned tree: list[int] -> bytes is accepted, [300] is rejected (finding F21a) *)
-Theorem C21_refuted_bytes : ~ C21_full_statement.
-Proof. exact c21_refuted_bytes. Qed.
-Print Assumptions C21_refuted_bytes.
-
-(* ... and list[list[int]] -> set[list[int]] is accepted, [[1]] is rejected (finding F21b) *)
+(* false: list[list[int]] -> set[list[int]] is accepted, [[1]] is rejected (finding F21b) *)
 Theorem C21_refuted_unhashable : ~ C21_full_statement.
 Proof. exact c21_refuted_unhashable. Qed.
 Print Assumptions C21_refuted_unhashable.
 
-(* outside those two classes (no bytes position in t; set items / dict keys of hashable types) it holds *)
+(* outside that class (set items / dict keys of t of hashable types) it holds *)
 Theorem C21_partial :
   forall (W : world) (t s : ty) (v : val),
     world_total W -> c21_target_ok t = true -> scalar_based s = true -> s <> TBase KAny ->
